@@ -187,6 +187,11 @@ pub fn run(ctx: &Ctx) -> Report {
         // formats built by hand: empty, and not ending in a newline
         ls.push(E::A(Act::Printf(vec![])));
         ls.push(E::A(Act::Printf(vec![FEl::Lit("x".into())])));
+        // formats that print nothing at all are actions all the same
+        ls.push(E::A(Act::Printf(vec![FEl::E(Esc::Clear)])));
+        ls.push(E::A(Act::Printf(vec![FEl::E(Esc::Clear), FEl::F(Fld::Name), FEl::E(Esc::Newline)])));
+        ls.push(E::A(Act::Printf(vec![FEl::Lit(String::new())])));
+        ls.push(E::A(Act::FPrintf("f".into(), vec![])));
         ls.push(E::A(Act::PrintFid));
         let leaf = prop::sample::select(ls).boxed();
         let strat = (crate::gen::expr_over(leaf, 6, 14, true), any::<bool>());
